@@ -130,3 +130,14 @@ PROPS['C11'] = dict(
     level_text="Deductive part: every accepted parameter set satisfies the documented ranges (check_input, Float64, complete), the random board has the requested shape and value ranges (gen_rnd_board/get_random_moves, any size), and every builder returns, for every tile, the non-empty transition list the rules prescribe with probabilities p and 1-p (p from check_input's range) or 1 -- so every state of every group has at least one transition and every probabilistic state's probabilities are positive and sum to 1 whenever 0 < p < 1. The remaining clauses are bounded executable contracts on the file actually written and read back.",
     level_note="Trusted: z3/cvc5, the encoder, assumed contracts of random/math/argparse. Assembly inside write_robot_X, the text round trip and the 'then solved or refused' clause are bounded stand-ins; the last one has a known finding.",
 )
+
+A_PYVAL = "in the validation functions the description is dynamically typed: the four top-level values are lists (rewards of numbers, final_states of ints, players of strings -- the shape the property fixes), NOTHING is assumed about the elements of transition_list: each is a PyVal (int | float | str | bool | None | tuple(len, slot0, slot1) | list reference | other); isinstance(v, int) includes bool"
+A_BRIDGE = "A-BRIDGE: that a description accepted by the validating prefix (PyVal world) is represented by a valid_states node list in the typed world of the solver contracts is not mechanised (the two encodings are linked by hand: same fields, same aliasing)"
+PROPS['C09'] = dict(
+    functions=fns('C09'),
+    assumptions=[A_PYVAL, A_BRIDGE, A_LIST, "min([]) / max([]) raise ValueError (CPython); comparing a non-number with < raises TypeError (a safety obligation)"],
+    trusted_base=['the well-formedness predicate WF(G) of contracts/tad.py, written from the rule list of the statement'],
+    undecided_clauses=["'the batch runner turns that error into a recorded message instead of a crash' (run_games: dicts, deepcopy, try/except, f-strings) is covered by the bounded executable contract only"],
+    level_text="From the real AST, for descriptions of any size and any Python values inside transition_list: check_next_states returns normally only if the value is a list whose EVERY element is a 2-tuple with a str action (player states) / a number (probabilistic states) and an int successor in 0..n-1, raises only ValueError, and no subscript, len or comparison can raise TypeError/IndexError (each is typed by an earlier test); check_game returns only if lengths agree, rewards are >= 0, finals are non-empty and in range, players are known (min/max of an empty list is the ValueError CPython raises); the three node constructors and Node.__init__ set every field and validate; init_states returns only if every state has a truthy, well-formed transition list, and its nodes alias the caller's lists; the prefix of solve up to the creation of the solver is reached only for a description satisfying the whole rule list and otherwise raises ValueError.",
+    level_note="Trusted: z3/cvc5, the encoder's PyVal model of dynamic typing, the rule list as written in WF(G). The typed-world solver contracts assume what this prefix establishes (A-BRIDGE). run_games is bounded only.",
+)
